@@ -9,7 +9,7 @@ from vk import refmodel as rm
 from vk.build import pack_bp, unpack_bp
 
 ID = 'C12'
-RULE = ('(zero-dimensional operands on either side are part of the arrays part) ' +
+RULE = ('Part bigarr: mv_and / mv_or / mv_xor on operands of 2.1-5.4 million elements with a broadcast second operand. (zero-dimensional operands on either side are part of the arrays part) ' +
         'Part tables (exhaustive): every operator (NOT/BUF with 1 operand; AND/OR/XOR with k=1..4 operands) in the formats bp8v, bp4v, '
         'mv (public 2-operand functions, nested for k>2; the private n-ary array kernels are not called directly), on ALL 8^k (4^k for the 4-valued operators) operand '
         'tuples; one enumerated case = (format, operator, k, first operand) and covers all tuples with that first operand, evaluated '
@@ -207,5 +207,36 @@ def prop_arrays(case):
     return Obs(nontrivial, labels, checks=int(np.prod(bshape)))
 
 
-PARTS = [Part('tables', prop_tables, enumerate=enum_tables, quick=(4, 0), thorough=(8, 0)),
+def enum_bigarr(tier):
+    """operands of more than 2^20 / 2^22 elements, the second one broadcast along the first or the last axis or zero-dimensional"""
+    shapes = [((48, 50021), (48, 1)), ((48, 50021), ()), ((3, 700001), (1, 700001))]
+    if tier == 'thorough':
+        shapes += [((2, 3, 900001), (3, 1)), ((1100001,), (1,)), ((64, 70000), (64, 70000))]
+    for j, (sa, sb) in enumerate(shapes):
+        for op in ('and', 'or', 'xor'):
+            yield dict(op=op, sa=list(sa), sb=list(sb), out=['none', 'C', 'F'][(j + len(op)) % 3])
+
+
+def prop_bigarr(case):
+    from kyupy import logic
+    op, sa, sb = case['op'], tuple(case['sa']), tuple(case['sb'])
+    na, nb = int(np.prod(sa)), int(np.prod(sb))
+    x = (((np.arange(na, dtype=np.uint64) * np.uint64(2654435761)) >> np.uint64(11)) % np.uint64(8)).astype(np.uint8).reshape(sa)
+    y = (((np.arange(nb, dtype=np.uint64) * np.uint64(40503)) >> np.uint64(3)) % np.uint64(8)).astype(np.uint8).reshape(sb)
+    lut = np.array([[ref_op(op, (a, b)) for b in range(8)] for a in range(8)], dtype=np.uint8)
+    exp = lut[x, np.broadcast_to(y, np.broadcast(x, y).shape)]
+    f = getattr(logic, f'mv_{op}')
+    out = None if case['out'] == 'none' else np.full(exp.shape, 7, dtype=np.uint8, order=case['out'])
+    r = f(x, y) if out is None else f(x, y, out=out)
+    r = np.asarray(r)
+    norm = lambda a: np.where(a == 2, 1, a)
+    if r.shape != exp.shape or not np.array_equal(norm(r), norm(exp)):
+        bad = np.argwhere(norm(r) != norm(exp))[0].tolist() if r.shape == exp.shape else None
+        raise Violation(f'mv_{op} on operands of shape {sa} and {sb} (out={case["out"]}): ' +
+                        (f'result {r[tuple(bad)]} at {bad}, algebra says {exp[tuple(bad)]}' if bad else f'result shape {r.shape}, expected {exp.shape}'))
+    return Obs(True, [op, 'second_operand_' + ('0d' if not sb else 'last_axis_1' if sb[-1] == 1 else 'other')], checks=int(exp.size))
+
+
+PARTS = [Part('bigarr', prop_bigarr, enumerate=enum_bigarr, quick=(3, 0), thorough=(6, 0)),
+         Part('tables', prop_tables, enumerate=enum_tables, quick=(4, 0), thorough=(8, 0)),
          Part('arrays', prop_arrays, strategy=array_cases, quick=(4, 400), thorough=(16, 15000))]
